@@ -486,8 +486,10 @@ func ruleCollectors(c *Ctx, x *extractor, scope []*ssa.Function) {
 
 // errorEdgeOnlyFails: the err != nil edge of the read's error test reaches no success.
 func errorEdgeOnlyFails(call *ssa.Call) (bool, string) {
-	var errEx *ssa.Extract
-	if call.Referrers() != nil {
+	var errEx ssa.Value
+	if isErrorType(call.Type()) {
+		errEx = call // a helper returning only the error of its reads
+	} else if call.Referrers() != nil {
 		for _, r := range *call.Referrers() {
 			if ex, ok := r.(*ssa.Extract); ok && isErrorType(ex.Type()) {
 				errEx = ex
@@ -518,7 +520,7 @@ func errorEdgeOnlyFails(call *ssa.Call) (bool, string) {
 		}
 		for idx := 0; idx < 2; idx++ {
 			for _, at := range atomsOf(iff.Cond, idx == 0) {
-				if at.Kind == "nil" && !at.Pos && (at.X == ssa.Value(errEx) || (!direct && phiOf(at.X, errEx))) {
+				if at.Kind == "nil" && !at.Pos && (at.X == errEx || (!direct && phiOf(at.X, errEx))) {
 					tested = true
 					if succeedsFrom(b.Succs[idx]) {
 						return false, fmt.Sprintf("from its error branch (block %d) a success exit or handler call is reachable", b.Succs[idx].Index)
@@ -674,10 +676,15 @@ func ruleSetExclusivity(c *Ctx) {
 	c.rule(rid, "A2 in the SET option parser: each store into an option field of an exclusivity group ({NX,XX}; {EX,PX,EXAT,PXAT}; repetition = the field's own group; KEEPTTL, GET: repetition) is dominated by guards, whose other side leads only to error returns, that together read every field of the group; each expiry store is dominated by value >= 1; SETEX's seconds likewise")
 	groups := map[string][]string{"NX": {"NX", "XX"}, "XX": {"NX", "XX"}, "EX": {"EX", "PX", "EXAT", "PXAT"}, "PX": {"EX", "PX", "EXAT", "PXAT"}, "EXAT": {"EX", "PX", "EXAT", "PXAT"}, "PXAT": {"EX", "PX", "EXAT", "PXAT"}, "KEEPTTL": {"KEEPTTL"}, "GET": {"GET"}}
 	n := 0
-	for _, fn := range c.P.RepoFuncs(pkgRedis) {
-		if len(naturalLoops(fn)) == 0 {
-			continue
+	inLoopOf := func(fn *ssa.Function, b *ssa.BasicBlock) bool {
+		for _, l := range naturalLoops(fn) {
+			if l.Blocks[b] {
+				return true
+			}
 		}
+		return false
+	}
+	for _, fn := range c.P.RepoFuncs(pkgRedis) {
 		allInstrs(fn, func(ins ssa.Instruction) {
 			st, ok := ins.(*ssa.Store)
 			if !ok {
@@ -687,14 +694,28 @@ func ruleSetExclusivity(c *Ctx) {
 			if !ok || owner != "redis.SetOption" || groups[f] == nil {
 				return
 			}
-			if _, isAlloc := strip(base).(*ssa.Alloc); !isAlloc {
-				return
-			}
-			// only stores under a keyword (in a loop)
+			// only stores under a keyword (in the option loop): into the loop function's own
+			// option variable, or through a pointer parameter of a helper called only from
+			// inside such a loop with that variable's address
 			inLoop := false
-			for _, l := range naturalLoops(fn) {
-				if l.Blocks[st.Block()] {
-					inLoop = true
+			switch bv := strip(base).(type) {
+			case *ssa.Alloc:
+				inLoop = inLoopOf(fn, st.Block())
+			case *ssa.Parameter:
+				sites, only := c.P.onlyStaticallyCalled(fn)
+				inLoop = only
+				for _, site := range sites {
+					okSite := inLoopOf(site.Parent(), site.Block())
+					for i, a := range site.Common().Args {
+						if i < len(fn.Params) && fn.Params[i] == bv {
+							if _, isAlloc := strip(a).(*ssa.Alloc); !isAlloc {
+								okSite = false
+							}
+						}
+					}
+					if !okSite {
+						inLoop = false
+					}
 				}
 			}
 			if !inLoop {
@@ -748,6 +769,41 @@ func ruleSetExclusivity(c *Ctx) {
 	}
 	c.count("set-option-stores", n)
 	c.floor("set-option-stores", 8)
+	// expiry stores outside an option loop (SETEX-style executors): the stored number is >= 1 by
+	// the tests of whichever helper read it
+	nex := 0
+	for _, fn := range c.P.RepoFuncs(pkgRedis) {
+		allInstrs(fn, func(ins ssa.Instruction) {
+			st, ok := ins.(*ssa.Store)
+			if !ok {
+				return
+			}
+			owner, f, base, ok := fieldOf(st.Addr)
+			if !ok || owner != "redis.SetOption" || !(f == "EX" || f == "PX" || f == "EXAT" || f == "PXAT") {
+				return
+			}
+			if _, isAlloc := strip(base).(*ssa.Alloc); !isAlloc || inLoopOf(fn, st.Block()) {
+				return
+			}
+			if cv, isC := st.Val.(*ssa.Const); isC && cv.IsNil() {
+				return
+			}
+			if _, isC := constInt(st.Val); isC {
+				return // the zero default
+			}
+			nex++
+			key := fmt.Sprintf("%s/expiry:%s", c.P.key(fn), f)
+			src := intSource(st.Val, 0)
+			if src == nil {
+				c.bad(rid, key, c.P.instrPos(st), "the expiry stored is not derived from a checked argument")
+				return
+			}
+			lo, _, hasLo, _ := constBounds(src, factsAt(st.Block()), 0)
+			c.check(hasLo && lo >= 1, rid, key, c.P.instrPos(st), "the expiry argument is >= 1 wherever it is stored", "the expiry value is stored without a test that it is >= 1 on the way from the argument (a zero or negative expiry is accepted)")
+		})
+	}
+	c.count("executor-expiry-stores", nex)
+	c.floor("executor-expiry-stores", 1)
 	// SETEX seconds
 	for _, fn := range c.P.RepoFuncs(pkgRedis) {
 		if !strings.Contains(fn.Name(), "SetEx") {
@@ -769,6 +825,10 @@ func ruleSetExclusivity(c *Ctx) {
 					if iq.x.base == nil && iq.x.off >= 1 && sameBase(iq.y, linOf(v)) && iq.y.off <= 0 {
 						okPos = true
 					}
+				}
+				// or the bound established by the helper that read the value
+				if lo, _, hasLo, _ := constBounds(v, factsAt(r.Block()), 0); hasLo && lo >= 1 {
+					okPos = true
 				}
 				if !okPos {
 					okAll = false
